@@ -119,6 +119,34 @@ impl Tag for MW {
     }
 }
 
+/// twelve more implementing types, so that a table can hold more than 16 distinct registrations
+pub struct MG<const N: usize>(pub u64);
+impl<const N: usize> Tag for MG<N> {
+    fn tag(&self) -> u32 {
+        if self.0 == 0x6000 + N as u64 {
+            300 + N as u32
+        } else {
+            9300
+        }
+    }
+    fn addr(&self) -> usize {
+        self as *const Self as usize
+    }
+    fn bump(&mut self) -> u64 {
+        6000 + N as u64
+    }
+}
+unsafe impl<const N: usize> CastFrom<MG<N>> for dyn Tag {
+    fn cast(t: *mut MG<N>) -> *mut Self {
+        t
+    }
+}
+impl<const N: usize> Mk for MG<N> {
+    fn mk() -> Self {
+        MG(0x6000 + N as u64)
+    }
+}
+
 macro_rules! cast_ok {
     ($($T:ty),*) => {$(
         unsafe impl CastFrom<$T> for dyn Tag {
@@ -159,7 +187,8 @@ unsafe impl CastFrom<MW> for dyn Tag {
     }
 }
 
-pub const NM: usize = 8;
+pub const NM: usize = 20;
+const NPLAIN: usize = 6;
 const WRONG: u8 = 6;
 const WRONG_Z: u8 = 7;
 fn is_wrong(t: u8) -> bool {
@@ -199,6 +228,54 @@ macro_rules! with_m {
             }
             7 => {
                 type $T = MWZ;
+                $body
+            }
+            8 => {
+                type $T = MG<8>;
+                $body
+            }
+            9 => {
+                type $T = MG<9>;
+                $body
+            }
+            10 => {
+                type $T = MG<10>;
+                $body
+            }
+            11 => {
+                type $T = MG<11>;
+                $body
+            }
+            12 => {
+                type $T = MG<12>;
+                $body
+            }
+            13 => {
+                type $T = MG<13>;
+                $body
+            }
+            14 => {
+                type $T = MG<14>;
+                $body
+            }
+            15 => {
+                type $T = MG<15>;
+                $body
+            }
+            16 => {
+                type $T = MG<16>;
+                $body
+            }
+            17 => {
+                type $T = MG<17>;
+                $body
+            }
+            18 => {
+                type $T = MG<18>;
+                $body
+            }
+            19 => {
+                type $T = MG<19>;
                 $body
             }
             _ => panic!("harness: meta type index out of range"),
@@ -251,6 +328,9 @@ impl Mk for MWZ {
 }
 
 fn tag_of(t: u8) -> u32 {
+    if t >= 8 {
+        return 300 + t as u32;
+    }
     [100, 101, 102, 103, 104, 105, 199, 198][t as usize]
 }
 
@@ -261,6 +341,8 @@ fn mrid(t: u8, d: u8) -> ResourceId {
 #[derive(Clone, Debug, Serialize, Deserialize, PartialEq)]
 pub enum MetaOp {
     Register { t: u8 },
+    /// register a run of the extra types (reaches more than 16 distinct registrations)
+    RegisterRange { start: u8, n: u8 },
     WorldInsert { t: u8, d: u8 },
     WorldRemove { t: u8, d: u8 },
     /// get on a standalone value
@@ -333,11 +415,27 @@ impl Prop for C17 {
                     WRONG_Z
                 }
             } else {
-                src.pick(NM - 2) as u8
+                // the six "interesting" types or one of the twelve extra ones
+                let k = src.pick(NPLAIN + 12);
+                if k < NPLAIN {
+                    k as u8
+                } else {
+                    (k + 2) as u8
+                }
             };
             let d = if src.chance(3, 16) { 1 } else { 0 };
             let op = match src.pick(16) {
-                0 | 1 | 2 | 3 => MetaOp::Register { t },
+                0 | 1 | 2 => MetaOp::Register { t },
+                3 => {
+                    if src.chance(6, 16) {
+                        MetaOp::RegisterRange {
+                            start: src.pick(12) as u8,
+                            n: 1 + src.pick(12) as u8,
+                        }
+                    } else {
+                        MetaOp::Register { t }
+                    }
+                }
                 4 | 5 | 6 => MetaOp::WorldInsert { t, d },
                 7 => MetaOp::WorldRemove { t, d },
                 8 => MetaOp::Get { t },
@@ -425,6 +523,17 @@ impl Prop for C17 {
                         repeats += 1;
                     } else {
                         order.push(t);
+                    }
+                }
+                MetaOp::RegisterRange { start, n } => {
+                    for k in 0..n {
+                        let t = 8 + (start + k) % 12;
+                        with_m!(t, T, table.register::<T>());
+                        if order.contains(&t) {
+                            repeats += 1;
+                        } else {
+                            order.push(t);
+                        }
                     }
                 }
                 MetaOp::WorldInsert { t, d } => {
@@ -598,6 +707,9 @@ impl Prop for C17 {
                     }
                 }
             }
+        }
+        if order.len() >= 16 {
+            st.class("tables_with>=16_distinct_types");
         }
         st.class_n("repeated_registrations", repeats);
         st.class_n("iterations", iters);
